@@ -360,6 +360,9 @@ func checkC19(c C19Case) Verdict {
 				failing = []string{"{if $a", "  and $a.nokey.deeper}x{/if}"}
 			case 2:
 				failing = []string{"{let $zzw:", "", " [1,", "  $a.nokey.deeper] /}{$zzw}"}
+			case 3:
+				// the command begins with a string literal that runs over three lines
+				failing = []string{"{'one", "two", "three' + $a.nokey.deeper}"}
 			}
 			if inMsgNow := func() bool {
 				for _, l := range loops {
@@ -508,6 +511,26 @@ func checkC19(c C19Case) Verdict {
 			return bad(true, "render error (failure %d calls deep) reported at line %d; the failing command of the entry template is on line %d\n%v\n%s", depth, fp.Line(), wantLine, trunc(rr.err.Error(), 300), numbered(src))
 		}
 		n++
+	}
+	// the watch tier (c19_watch.go): a few cases per process
+	if hashCase(c)%3 == 0 && os.Getenv("VERIF_C19_NOWATCH") == "" {
+		var plain []string
+		for _, l := range c.Lines {
+			if !strings.ContainsAny(l, "{}") {
+				plain = append(plain, l)
+			}
+		}
+		werr, why := c19Watch(plain, 7+len(c.Lines)*5)
+		if werr != nil {
+			return bad(true, "%v", werr)
+		}
+		if c19rec != nil && why != "n/a" {
+			if why == "" {
+				c19rec.add("watch_tier_runs", 1)
+			} else {
+				c19rec.add("watch_tier_inconclusive", 1)
+			}
+		}
 	}
 	if c19rec != nil {
 		c19rec.add("render_fault_positions", n)
